@@ -23,13 +23,18 @@ fn gen_program(seed: u64, i: u64, corpus: &Corpus) -> (String, Project, String) 
     p.modules.extend(corpus.std.iter().cloned());
     return ("corpus tests.AllTests".into(), p, "tests.AllTests".into());
   }
+  if i % 4 == 0 {
+    // constructs whose lowering walks sets / maps of names (captured variables, members)
+    let text = vcore::exprgen::order_zoo(&mut rng);
+    return (format!("order zoo {i}"), Project::single("Zoo", &text).with_std(), "Zoo".into());
+  }
   let pseed = seed.wrapping_mul(1_000_003).wrapping_add(i);
   let mut cfg = GenConfig::default_for(pseed);
   cfg.max_modules = 5;
   cfg.max_classes = 8;
   let g = pgen::generate(pseed, &cfg);
   let mut p = g.project.with_std();
-  if i % 3 == 2 {
+  if i % 4 == 2 {
     // a rejected variant with many diagnostics, several at equal locations / of equal kind
     let mut edits = 0;
     for m in p.modules.iter_mut().filter(|m| m.0.starts_with("gen.")) {
@@ -75,7 +80,7 @@ fn gen_program(seed: u64, i: u64, corpus: &Corpus) -> (String, Project, String) 
     }
     return (format!("rejected variant of pgen seed {pseed} ({edits} edits)"), p, g.entry);
   }
-  if i % 3 == 1 {
+  if i % 4 == 1 {
     // two entry points, the first one's main reachable from the second
     p.modules.push(("multi.Helper".into(), format!("import {{ Main }} from {}\nclass Helper {{ function run(): unit = Main.main() }}\n", g.entry)));
     p.modules.push(("multi.Second".into(), "import { Helper } from multi.Helper\nclass Main { function main(): unit = { Helper.run(); Process.println(\"second entry point\"); } }\n".into()));
